@@ -1920,7 +1920,9 @@ func (schema *Schema) visitJSONObject(settings *schemaValidationSettings, value 
 
 			if f := settings.defaultsSet; f != nil && value[propName] == nil {
 				if dflt := propSchema.Value.Default; dflt != nil && !reqRO && !repWO {
-					value[propName] = dflt
+					// copy: the value being validated must not alias the schema's
+					// default, which nested defaults would otherwise be written into
+					value[propName] = deepcopy.Copy(dflt)
 					settings.onceSettingDefaults.Do(f)
 				}
 			}
